@@ -10,5 +10,6 @@ CHECKS["C09"] = dict(
     level_note="Trusted: the race detector, a harness-owned logical clock (atomic counter ticked at invoke/return) to order operations in real time, the verif GC hook. Operations that report failure (unauthorised writes, refused deletes, refused opens) are treated as having no effect.",
     rule=("plans: 1-3 index groups with one data channel each (fixed and variable types), small file caps, 3-8 tasks. Non-trivial = a run in which two writes on the same group, or a write and a successful delete, overlapped in real time (invoke/return intervals intersect); distinct by plan and observed event count."),
     assumptions=["each writer task uses its own timestamp region, so samples are identifiable and never rewritten"],
-    tests=[dict(name="TestC09", race=True, stall_is_violation=True, quick=dict(cases=450, shards=6, gomaxprocs=[2, 4, 8, 16, 3, 6], timeout=600), thorough=dict(cases=4000, shards=16, gomaxprocs=[1, 2, 4, 16], timeout=3000))],
+    tests=[dict(name="TestC09Domain", race=True, stall_is_violation=True, quick=dict(cases=400, shards=4, gomaxprocs=[2, 4, 8, 16], timeout=600), thorough=dict(cases=4000, shards=16, gomaxprocs=[1, 2, 4, 16], timeout=3000)),
+           dict(name="TestC09", race=True, stall_is_violation=True, quick=dict(cases=450, shards=6, gomaxprocs=[2, 4, 8, 16, 3, 6], timeout=600), thorough=dict(cases=4000, shards=16, gomaxprocs=[1, 2, 4, 16], timeout=3000))],
 )
